@@ -1,3 +1,3 @@
+pub mod app;
 pub mod net;
 pub mod sw;
-pub mod app;
